@@ -88,6 +88,7 @@ type observation struct {
 	verify    map[string]string     // presented credential -> verdict class
 	dupIDs    []string              // ids returned twice by a search
 	foreign   []string              // problems seen while observing
+	inconsistent []string           // two ways of asking the same question gave different answers
 }
 
 func diagCount(n *node) (docs, revs int) {
@@ -134,6 +135,16 @@ type run struct {
 	dropped  map[string]string // transaction -> transient cause the receiver answered with a dropped job (already reported)
 	stepNo   int
 	envError string // the environment, not the code under test, failed (lock time-outs under CPU starvation)
+	twoContents bool // an id was seen bound to two contents (reported; what follows from it is not reported again)
+	overlap     bool // the script held a handler call between look-up and write
+	blindOK     map[string]bool
+	held     map[string]*heldCall
+}
+
+// heldCall is a delivery whose handler is stopped between the id look-up and the write.
+type heldCall struct {
+	release chan struct{}
+	done    chan error
 }
 
 func classifyResolve(c *vc.VerifiableCredential, err error) string {
@@ -163,7 +174,7 @@ func (r *run) absIssuer(didStr string) string {
 	return ""
 }
 
-func (r *run) observe() observation {
+func (r *run) observe(final bool) observation {
 	v := r.w.NR.vcr
 	o := observation{Resolve: map[string]resolveAns{}, verify: map[string]string{}}
 	for _, x := range r.ids {
@@ -226,6 +237,31 @@ func (r *run) observe() observation {
 			o.SearchAll = list
 		} else {
 			o.Search = list
+		}
+		// the same question asked through another index: by credential subject (every credential of a script is about
+		// the script's own subject) together with the type
+		if !final {
+			continue // (no index serves this query: it scans the collection, so it is asked once per script)
+		}
+		terms := []vcr.SearchTerm{
+			{IRIPath: []string{"https://www.w3.org/2018/credentials#credentialSubject"}, Value: r.c.subj.id.String(), Type: vcr.Exact},
+			{IRIPath: []string{"https://www.w3.org/2018/credentials#issuer"}, Type: vcr.NotNil},
+		}
+		found, err := v.Search(context.Background(), terms, au, nil)
+		if err != nil {
+			o.foreign = append(o.foreign, "Search by subject: "+err.Error())
+		}
+		var bySubject []string
+		for _, f := range found {
+			name, ok := r.c.byKey[contentKey(f)]
+			if !ok {
+				name = "?"
+			}
+			bySubject = append(bySubject, name)
+		}
+		sort.Strings(bySubject)
+		if strings.Join(bySubject, ",") != strings.Join(list, ",") {
+			o.inconsistent = append(o.inconsistent, fmt.Sprintf("search by issuer (allowUntrusted=%v) returns %v, search by subject returns %v", au, list, bySubject))
 		}
 	}
 	tr, _ := v.Trusted(orgType)
@@ -391,14 +427,29 @@ func (r *run) judge(o observation) {
 			}
 		}
 	}
+	for _, m := range o.inconsistent {
+		r.violate("search-inconsistent", "", m)
+	}
 	// (2) an id is never bound to two contents
+	// cause "overlap": the script let two handler calls for one id overlap; "sequential": one call at a time
+	how := "sequential"
+	if r.overlap {
+		how = "overlap"
+	}
 	for _, x := range o.dupIDs {
-		r.violate("id-two-contents", "", fmt.Sprintf("a search returns two credentials with id %s", x))
+		r.twoContents = true
+		r.violate("id-two-contents", how, fmt.Sprintf("a search returns two credentials with id %s", x))
+	}
+	// ... also where no search shows it (revoked, untrusted): the collection holds more documents than ids
+	blind := len(r.blindOK) // JWT credentials a call (receiver or reprocess) accepted: written, never indexed
+	if o.NDocs > len(present)+blind {
+		r.twoContents = true
+		r.violate("id-two-contents", how, fmt.Sprintf("%d documents in the collection for %d ids (+%d unindexed)", o.NDocs, len(present), blind))
 	}
 	// (3) the stored set is a function of the set of delivered transactions
 	for _, t := range r.txs {
 		row, isCred := tab.C[t]
-		if !isCred || !r.deliv[t] || !tab.valid(t) || !r.resolvable(t) || r.jobState[t] == "retry" {
+		if !isCred || !r.deliv[t] || !tab.valid(t) || !r.resolvable(t) || r.jobState[t] == "retry" || r.jobState[t] == "busy" {
 			continue
 		}
 		if r.dropped[t] != "" && r.dropped[t] == r.lastCls[t] && !present[row.ID] {
@@ -449,7 +500,7 @@ func (r *run) judge(o observation) {
 			r.violate("revocation-lost", "", fmt.Sprintf("id %s was revoked and is not any more", x))
 		}
 		if h := holder[x]; h != "" {
-			if old := r.everHeld[x]; old != "" && old != h {
+			if old := r.everHeld[x]; old != "" && old != h && !r.twoContents {
 				r.violate("content-replaced", "", fmt.Sprintf("id %s held %s, now %s", x, old, h))
 			}
 			r.everHeld[x] = h
@@ -629,6 +680,9 @@ func (r *run) absorb(evName string, calls []call, faultHit bool) (plain int) {
 			job = "dead"
 		}
 		r.jobState[t], r.lastCls[t] = job, cls
+		if row, isCred := tab.C[t]; isCred && row.Fmt == "jwt" && cls == "ok" {
+			r.blindOK[t] = true
+		}
 		if job == "retry" {
 			plain++
 		}
@@ -716,6 +770,17 @@ func (r *run) exec() (err error) {
 		if p := recover(); p != nil {
 			err = fmt.Errorf("panic: %v", p)
 		}
+		// calls that are still held at their gate go on (whatever way the script ended)
+		for t, hc := range r.held {
+			close(hc.release)
+			select {
+			case <-hc.done:
+			case <-time.After(10 * time.Second):
+			}
+			delete(r.held, t)
+		}
+		r.w.gate.disarm()
+		r.w.NR.net.takeCalls()
 	}()
 	w, in, sc := r.w, r.in, r.sc
 	// transactions and ids in play
@@ -805,6 +870,44 @@ func (r *run) exec() (err error) {
 				r.violate("subscriber-selection", "count", fmt.Sprintf("payload event of %s reached %d receivers", t, len(subs)))
 			}
 			r.absorb("deliver", calls, r.hits() > h0)
+		case "Begin":
+			b := r.c.built[t]
+			reached, release := w.gate.arm()
+			hc := &heldCall{release: release, done: make(chan error, 1)}
+			go func() { hc.done <- w.NR.net.deliver(b.event()) }()
+			select {
+			case <-reached:
+				r.overlap = true
+				r.held[t] = hc
+				r.deliv[t], r.jobState[t] = true, "busy"
+				r.res.Trace = append(r.res.Trace, map[string]any{"ev": "begin", "t": t})
+			case err := <-hc.done: // the handler never came to the signature check (the id is taken, ...): an ordinary delivery
+				w.gate.disarm()
+				if err != nil {
+					return err
+				}
+				r.deliv[t] = true
+				r.res.Drift = append(r.res.Drift, fmt.Sprintf("step %d: Begin(%s) did not reach the signature check", i, t))
+				r.absorb("deliver", w.NR.net.takeCalls(), false)
+			case <-time.After(10 * time.Second):
+				return fmt.Errorf("Begin(%s): neither the gate nor the end of the call was reached", t)
+			}
+		case "Finish":
+			hc := r.held[t]
+			if hc == nil {
+				continue
+			}
+			delete(r.held, t)
+			close(hc.release)
+			select {
+			case err := <-hc.done:
+				if err != nil {
+					return err
+				}
+			case <-time.After(10 * time.Second):
+				return fmt.Errorf("Finish(%s): the call does not return", t)
+			}
+			r.absorb("finish", w.NR.net.takeCalls(), false)
 		case "Retry":
 			if r.jobState[t] != "retry" {
 				continue // the real job is not waiting for a retry (the code answered otherwise than the script assumed)
@@ -843,6 +946,9 @@ func (r *run) exec() (err error) {
 			if err != nil {
 				msg = err.Error()
 			}
+			if row, isCred := in.Tables.C[t]; isCred && row.Fmt == "jwt" && msg == "" {
+				r.blindOK[t] = true
+			}
 			r.res.Trace = append(r.res.Trace, map[string]any{"ev": "reprocess", "t": t, "res": classifyErr(msg)})
 		case "Trust", "Untrust":
 			iss := st.str("i")
@@ -870,7 +976,7 @@ func (r *run) exec() (err error) {
 		if r.envError != "" {
 			return errors.New(r.envError)
 		}
-		o := r.observe()
+		o := r.observe(i == len(sc.Steps)-1)
 		r.judge(o)
 		if r.envError != "" {
 			return errors.New(r.envError)
@@ -898,7 +1004,7 @@ func (r *run) exec() (err error) {
 func runRecv(w *world, in input, sc script) result {
 	res := result{ID: sc.ID, Violations: []violation{}, Drift: []string{}}
 	r := &run{w: w, in: in, sc: sc, res: &res, trustRef: map[string]bool{}, deliv: map[string]bool{}, jobState: map[string]string{}, lastCls: map[string]string{},
-		everRev: map[string]bool{}, everHeld: map[string]string{}, reported: map[string]bool{}, dropped: map[string]string{}}
+		everRev: map[string]bool{}, everHeld: map[string]string{}, reported: map[string]bool{}, dropped: map[string]string{}, held: map[string]*heldCall{}, blindOK: map[string]bool{}}
 	if err := r.exec(); err != nil {
 		res.Error = err.Error()
 	}
